@@ -332,7 +332,10 @@ async def reconnect_case(ctx, first_end: str, stream: bytes, writes: list[str]) 
         try:
             await asyncio.wait_for(transport.connect(), 10)
         except Exception as exc:  # noqa: BLE001
-            ctx.violation("reconnect-failed", f"second connect raised {type(exc).__name__}: {exc!s:.80}", case)
+            if is_transport_error(exc):
+                ctx.obs("reconnect-refused-loudly")  # refusing reuse with a transport error is not a silent failure
+            else:
+                ctx.violation("reconnect-failed", f"second connect raised {type(exc).__name__}: {exc!s:.80}", case)
             return
         expected = reference(stream, True)
         results: list[tuple[str, object]] = []
@@ -548,7 +551,7 @@ def run(ctx) -> None:
                     if r == 0:
                         arun(reader_case(ctx, stream, cuts, eof=False))
         ctx.exhaustive["all-chunkings-of-short-streams"] = count
-        for i in range(ctx.pick(2000, 40000) // ctx.shard_count):
+        for i in range(ctx.pick(2000, 400000) // ctx.shard_count):
             stream = random_stream(rng)
             cuts = tuple(sorted(rng.sample(range(1, max(2, len(stream))), min(max(0, len(stream) - 1), rng.randint(0, 6)))))
             arun(reader_case(ctx, stream, cuts, eof=rng.random() < 0.7))
